@@ -98,6 +98,8 @@ var Inl = []string{
 	"[\x00a\x00]: /u", "[\x00a\x00]", "\x00a\x00", "[a\x00\x00b\x00]", "`\x00 \x00`", "<a\x00b\x00>", "(/u\x00v\x00 \"t\x00\x00u\x00\")",
 	// a backslash before a non-ASCII character, NUL or invalid byte, in every place escapes are processed
 	"[t](/u\\é)", "[t](/u \"a\\猫\")", "[a\\é]: /u", "[a\\é]", "<a b=\"\\é\">", "`\\é`", "\\\x00", "[t](<\\é>)", "![\\é](/s '\\\x00')", "\\\xff", "[r]: /u\\é \"t\\ß\"\n",
+	// constructs over three lines (a middle line that lies wholly inside the construct)
+	"[a\nb\nc]: /u", "[t][a\nb\nc]", "[a\nb\nc]", "`a\nb\nc`", "<a\nb\nc>", "<!-- a\nb\nc -->", "[t](/u\n'x\ny')", "[t\nu\nv](/w)", "*a\nb\nc*",
 	// a NUL first on a continuation line of a multi-line label, title, tag or code span (behind whatever prefix the container has)
 	"[a\n\x00b]: /u", "[a\n\x00b]", "[x][a\x00\n\x00\x00b]", "[t](/u 'x\n\x00y')", "<a\n\x00b='c'>", "`c\n\x00d`", "[t](/u\n\"\x00\")",
 }
@@ -119,9 +121,15 @@ var damage = []string{" ", "<", ">", "\"", "'", "-", "\\", "!", "/", "=", "`", "
 func construct(t *rapid.T) string {
 	c := Constructs[rapid.IntRange(0, len(Constructs)-1).Draw(t, "construct")]
 	switch rapid.IntRange(0, 5).Draw(t, "damage") {
-	case 0, 1: // a line ending at an arbitrary interior position
-		p := rapid.IntRange(1, len(c)-1).Draw(t, "splitpos")
-		return c[:p] + "\n" + c[p:]
+	case 0, 1: // one to three line endings at arbitrary interior positions
+		for n := rapid.IntRange(1, 3).Draw(t, "nsplit"); n > 0; n-- {
+			p := rapid.IntRange(1, len(c)-1).Draw(t, "splitpos")
+			if c[p-1] == '\n' || c[p] == '\n' {
+				continue // no blank line
+			}
+			c = c[:p] + "\n" + c[p:]
+		}
+		return c
 	case 2: // one character deleted
 		p := rapid.IntRange(0, len(c)-1).Draw(t, "delpos")
 		return c[:p] + c[p+1:]
